@@ -291,7 +291,7 @@ def build_pyrates(mdl, style=None, rng=None, share_templates=True):
 
     def mk(circ):
         edges = [(e["src"], e["tgt"], ets[e["template"]] if e.get("template") else None,
-                  dict({"weight": float(F(e["w"]))}, **({"delay": float(F(e["delay"]))} if e.get("delay") is not None else {}),
+                  dict({"weight": float(F(e["w"]))}, **({"delay": (int(F(e["delay"])) if e.get("delay_as_int") else float(F(e["delay"])))} if e.get("delay") is not None else {}),
                        **({"spread": float(F(e["spread"]))} if e.get("spread") is not None else {}),
                        **{f"{mdl['ops'][mdl['edge_templates'][e['template']]['op']]['name']}/{k}": float(F(v)) for k, v in (e.get("values") or {}).items()},
                        **_edge_bindings(mdl, e)))
